@@ -3,6 +3,7 @@
 
 #![allow(dead_code)]
 
+mod accept;
 mod arith;
 mod codec;
 mod fam;
@@ -12,6 +13,7 @@ mod io;
 mod model;
 mod out;
 mod rng;
+mod tokens;
 mod topic;
 mod wire;
 
@@ -79,6 +81,19 @@ fn main() {
                 "poll" => frontends::record_poll(&mut o, &tier, seed),
                 "stream" => frontends::record_stream(&mut o, &tier, seed),
                 _ => frontends::record_fault(&mut o, &tier, seed),
+            }
+            let n = o.seq;
+            let shards = o.finish();
+            println!("{{\"events\":{n},\"shards\":{shards}}}");
+        }
+        ("record", "mal") | ("record", "strict") | ("record", "reenc") | ("record", "decoded") | ("record", "cross") => {
+            let mut o = out::Out::new(&outp, shard);
+            match area {
+                "mal" => accept::record_mal(&mut o, &tier, seed),
+                "strict" => accept::record_strict(&mut o, &tier, seed),
+                "reenc" => accept::record_reenc(&mut o, &tier, seed),
+                "decoded" => accept::record_decoded(&mut o, &tier, seed),
+                _ => accept::record_cross(&mut o, &tier, seed),
             }
             let n = o.seq;
             let shards = o.finish();
